@@ -70,7 +70,11 @@ def main():
               "an exception's base class, __eq__/__hash__/__repr__ of a key object, a property, a default, an enum predicate, a utility, a sibling class, or "
               "a suspension point (await / call_soon / task) moved between a check and the act it protects -- while the central functions stay textually "
               "untouched.  The machine is shared with up to 19 other agents: use --jobs %d at most and prefer targeted runs (`--only <ids>`) while "
-              "iterating; run the full corpora once at the end.\n" % (ordinal.upper(), minutes, 8, nref, nmut, jobs))
+              "iterating.  DO NOT run the full sweeps (`tools/ref_quick.py --props CNN` over all refactorings, `tools/mut_quick.py --props CNN` over all patches): "
+              "they take far too long on the shared machine and the caller runs them after the pass.  Instead, for the false-alarm side run "
+              "`tools/ref_quick.py --props CNN --only <ids>` on the refactorings whose patch.diff touches a file your changed/new clauses read "
+              "(`grep -l <file> /verif/refactorings/*/patch.diff`), at most ~40 ids, plus all refactorings of your own property; for the detection "
+              "side `tools/mut_quick.py --only CNN`.  Run `./check CNN --tier thorough --jobs %d` exactly once, at the end.\n" % (ordinal.upper(), minutes, 8, nref, nmut, jobs, jobs)).replace("CNN", P)
         if P in refs:
             t += ("PRIORITY 1 -- FALSE ALARMS / REFUSALS of YOUR check (%s) on behaviour-preserving refactorings (every check MUST exit 0 on them; "
                   "read the refactoring's meta.json and patch.diff):\n" % P)
@@ -85,7 +89,7 @@ def main():
                 meta = json.load(open(os.path.join(VERIF, "seeded", sid, "meta.json")))
                 t += "  - /verif/seeded/%s : %s  NEEDS: %s   [now: %s%s]\n" % (
                     sid, (meta.get("summary") or "").replace("\n", " "), (meta.get("needs") or "").replace("\n", " ")[:400], status,
-                    (": " + " | ".join(det[:2])) if det else "")
+                    ((": " + " | ".join(det[:2])) if det else "") + (("; reported by OTHER checks: %s -- if the violated necessary condition is the same one, reuse that module's clause as a shared clause of your property by importing it, the way earlier passes did (C02.i, C03.e, C13.h ...)" % ", ".join(o for o in (meta.get("checks_when_first_evaluated") or {}).get("caught_by", []) if o != sid.split("-")[0])) if [o for o in (meta.get("checks_when_first_evaluated") or {}).get("caught_by", []) if o != sid.split("-")[0]] else ""))
             t += ("For each: (1) read patch, meta and demo and state which NECESSARY CONDITION of the property the change violates, in terms of the code as "
                   "it is today; (2) decide honestly whether that condition can be decided by static analysis of the source with a SOUND, GENERAL rule (one "
                   "that a maintainer's behaviour-preserving edit cannot trip and that is not a frozen copy of today's text): if yes, add or extend a clause "
